@@ -445,6 +445,8 @@ impl Write for SimSink {
 pub struct SimPolicy {
     spec: PolicySpec,
     grants: usize,
+    /// requests so far (granted or not)
+    calls: usize,
     seam: Seam,
 }
 
@@ -453,12 +455,13 @@ impl SimPolicy {
         SimPolicy {
             spec,
             grants: 0,
+            calls: 0,
             seam,
         }
     }
 }
 
-pub fn policy_eval(spec: &PolicySpec, grants: usize, cur: usize) -> Option<usize> {
+pub fn policy_eval(spec: &PolicySpec, grants: usize, calls: usize, cur: usize) -> Option<usize> {
     match spec {
         PolicySpec::Std => StdPolicy.grow_to(cur),
         PolicySpec::DoubleUntil(k) => DoubleUntil(*k).grow_to(cur),
@@ -488,6 +491,13 @@ pub fn policy_eval(spec: &PolicySpec, grants: usize, cur: usize) -> Option<usize
                 Some(cur * 2)
             }
         }
+        PolicySpec::RefuseFirst(k) => {
+            if calls < *k {
+                None
+            } else {
+                Some(cur * 2)
+            }
+        }
     }
 }
 
@@ -498,7 +508,8 @@ impl BufPolicy for SimPolicy {
         if current_size > log.growth_limit.max(1 << 26) {
             panic!("{}: runaway buffer growth (grow_to({}))", HANG_MARK, current_size);
         }
-        let res = policy_eval(&self.spec, self.grants, current_size);
+        let res = policy_eval(&self.spec, self.grants, self.calls, current_size);
+        self.calls += 1;
         if res.is_some() {
             self.grants += 1;
         }
